@@ -5,4 +5,17 @@ fn main() {
     println!("cargo:rustc-env=VERIF_REPO_ROOT={root}");
     println!("cargo:rerun-if-env-changed=VERIF_REPO_ROOT");
     println!("cargo:rerun-if-changed={root}/cli/src/create/runner.rs");
+    // The simulator implements the public trait genotype::Reader for its simulated record source.
+    // Two shapes of `read_genotypes` are supported: returning the genotypes (as pinned) and filling a
+    // caller-owned buffer (`&mut Vec<Result>` argument, `ReadStatus<()>`), a plausible buffer-reuse
+    // refactoring. Anything else stops the build (harness error, exit 2) and needs the harness adapted.
+    let trait_src = format!("{root}/core/src/input/genotype/reader.rs");
+    println!("cargo:rerun-if-changed={trait_src}");
+    println!("cargo:rustc-check-cfg=cfg(verif_geno_fill)");
+    if let Ok(src) = std::fs::read_to_string(&trait_src) {
+        let flat: String = src.split_whitespace().collect::<Vec<_>>().join(" ");
+        if flat.contains("fn read_genotypes(&mut self, ") && flat.contains("&mut Vec<") {
+            println!("cargo:rustc-cfg=verif_geno_fill");
+        }
+    }
 }
